@@ -509,7 +509,25 @@ def gen_dyndep_invalid(rnd, sid):
     if not g.dd_info: return None
     dd = sorted(g.dd_info)[0]; text = g.sources[dd]
     bound = sorted(g.dd_info[dd]); others = [o for e in g.edges for o in e.outs]
-    kind = rnd.choice(['truncate', 'truncate', 'delete-line', 'dup-line', 'extra-stmt', 'claim-output', 'garbage', 'missing', 'no-version', 'valid'])
+    second = None
+    if rnd.random() < 0.4:
+        n0 = len(g.dd_info); engine.add_dyndep(rnd, g, produced=False)
+        if len(g.dd_info) > n0:
+            second = sorted(g.dd_info)[-1]
+            # keep the two files' statements disjoint: a statement already bound to the first file stays there
+            for o0 in list(g.dd_info[second]):
+                if o0 in g.dd_info[dd]: del g.dd_info[second][o0]
+            for e in g.edges:
+                if e.dyndep == second and e.out0 not in g.dd_info[second]:
+                    e.dyndep = dd if e.out0 in g.dd_info[dd] else None
+            if not g.dd_info[second]:
+                del g.dd_info[second]; g.sources.pop(second, None)
+                for e in g.edges:
+                    e.oo = [x for x in e.oo if x != second]; e.imp = [x for x in e.imp if x != second]
+                second = None
+            else:
+                g.sources[second] = engine.dd_text(g.dd_info[second])
+    kind = rnd.choice(['truncate', 'truncate', 'delete-line', 'dup-line', 'extra-stmt', 'claim-output', 'garbage', 'missing', 'no-version', 'valid'] + (['other-file-stmt'] * 3 if second else []))
     new = text
     if kind == 'truncate': new = text[:rnd.randrange(0, len(text))]
     elif kind == 'delete-line':
@@ -519,6 +537,8 @@ def gen_dyndep_invalid(rnd, sid):
     elif kind == 'extra-stmt':
         unbound = [e.out0 for e in g.edges if e.out0 not in bound and not e.phony]
         new = text + 'build %s: dyndep\n' % (rnd.choice(unbound) if unbound and rnd.random() < 0.7 else 'nosuchoutput')
+    elif kind == 'other-file-stmt':
+        new = text + 'build %s: dyndep\n' % rnd.choice(sorted(g.dd_info[second]))     # a statement that belongs to the OTHER dyndep file
     elif kind == 'claim-output':
         ls = text.split('\n'); victim = rnd.choice([o for o in others if o not in bound] or ['zz'])
         ls[1] = ls[1].replace(': dyndep', ' | %s: dyndep' % victim, 1) if ' | ' not in ls[1].split(':')[0] else ls[1].replace(':', ' %s:' % victim, 1)
@@ -781,3 +801,29 @@ def motif_restat_deps_crash(rnd, sid):
     base.add(Step('touch', 'step touch %s' % hx('src'), path='src'))
     base.late_edit = 'h2'
     return base
+
+def motif_dyndep_not_ready(rnd, sid):
+    """a dyndep file rebuilt mid-build whose bound statement is CLEAN and whose discovered input is clean but not
+    ready (an order-only input of ITS statement is missing): the discovered part must still be added to the plan"""
+    g = engine.Graph(); g.sources = {'in': 'i', 'ddin': 'd', 'pin': 'p', 'win': 'w'}
+    de = engine.Edge(900); de.outs = ['dd']; de.exp = ['ddin']; de.restat = rnd.random() < 0.3
+    we = engine.Edge(1); we.outs = ['w']; we.exp = ['win']
+    pe = engine.Edge(2); pe.outs = ['p']; pe.exp = ['pin']; pe.oo = ['w']
+    oe = engine.Edge(3); oe.outs = ['out']; oe.exp = ['in']; oe.dyndep = 'dd'
+    if rnd.random() < 0.5: oe.oo = ['dd']
+    else: oe.imp = ['dd']
+    oe.hidden = ['p']
+    g.edges = [de, we, pe, oe]
+    if rnd.random() < 0.4:
+        fe = engine.Edge(4); fe.outs = ['final']; fe.exp = ['out']; g.edges.append(fe)
+    g.dd_info['dd'] = {'out': ([], ['p'], rnd.random() < 0.3)}
+    g.ddtext['dd'] = engine.dd_text(g.dd_info['dd'])
+    h = Hist(sid, g)
+    tg = [g.edges[-1].out0]
+    h.build(rnd, tg, j=rnd.choice([1, 2]), k=1, sched=rand_sched(rnd, 12))
+    h.add(Step('rm', 'step rm %s' % hx('w'), path='w'))
+    if rnd.random() < 0.8: h.add(Step('touch', 'step touch %s' % hx('ddin'), path='ddin'))
+    else: h.edit('ddin', 'd2')
+    st = h.build(rnd, tg, j=rnd.choice([1, 2]), k=1, sched=rand_sched(rnd, 12))
+    h.add(Step('build', st.line, g=st.g, sources=st.sources, targets=st.targets, opts=st.opts, repeat=True))
+    return h
